@@ -1,3 +1,4 @@
+#![allow(unused_imports, unused_mut, unused_variables, private_interfaces, dead_code)]
 pub mod bytede;
 pub mod framework;
 pub mod fuzzing;
